@@ -1,8 +1,8 @@
 SPECIFICATION Spec
 CONSTANTS NC = 2
- IDS = {"a", "b", "c"}
+ IDS = {"a", "b"}
  Record = FALSE
- Mut = "none"
+ Mut = "skip-ready-on-disconnect"
 INVARIANT NoCrash
 INVARIANT RepliesConsistent
 INVARIANT TablesConsistent
